@@ -12,12 +12,20 @@ Implementation functions driven (real code from $VERIF_REPO/src):
   (institution_name, institutional_department_name, performed_procedure_codes, requested_procedures) and
   observes what the document records of them; kind doc_verify crosses the verification arguments
   EXHAUSTIVELY with the three classes and with the presence of those arguments.
+  CODED ENTRIES (session 6): every document kind draws coded entries - concept name of any item (root included),
+  value of a CODE item, unit and qualifier of a NUM item, the title of a key object document, the codes handed
+  to the TID 1500 template classes, the performed procedure codes - that carry MORE than value / scheme / meaning:
+  long / URN form, scheme version, context group identification and extension, mapping resource, equivalent
+  codes (set on the CodedConcept by hand: the constructor has no argument for them), and non-root items that carry
+  ObservationUID / ObservationDateTime set by hand; all of it is decoded with plain pydicom from every view
+  (.content, top level, parsed) and is part of the tree compared with the model (optional attributes 14..17, 20, 21).
 Model: coq/theories/C15_Model.v; theorems: C15_Props.v.
 
 A case is JSON: content trees are nested lists [vt, tag, rel, ref|None, kids] or
 [vt, tag, rel, ref|None, kids, opts] (vt index into VTS, tag = code value of the concept
 name, rel index into RELS, ref = [instance no, class no], opts = [[key, [values]]..] in key
-order = the OPTIONAL attributes the item carries, see OPT_KEYS); evidence records are
+order = the OPTIONAL attributes the item carries, see OPT_KEYS; keys 14..17 = what the coded entries of the item
+carry beyond the basics, as a sorted list of ENTRY_FEATS numbers); evidence records are
 [instance no, class no, study no, series no].  Numbers are mapped to UIDs by uid_of/cls_of and back.
 """
 import copy
@@ -41,7 +49,8 @@ ORACLE_PREMISES = [
     'well-formed content tree (named items, non-root items with a relationship type) and keep it unchanged, '
     'every optional attribute of every item included (deep copy + per-value-type from_dataset conversion '
     'modelled as value copy); exercised by dataset equality and by decoding every optional attribute '
-    'in every doc / roundtrip / from_dataset case (15 value types x their constructor options)',
+    'in every doc / roundtrip / from_dataset case (15 value types x their constructor options x what the coded '
+    'entries of the item carry beyond value / scheme / meaning x attributes set on the item by hand)',
 ]
 MODELLED = ('sr.utils.find_content_items / _create_references / collect_evidence; sr.sop._SR.__init__ guard order '
             '(evidence, transfer syntax, verification details, content sequence length, root item checks, '
@@ -60,15 +69,29 @@ MODELLED = ('sr.utils.find_content_items / _create_references / collect_evidence
             'is modelled with its root rebuild (value type, name, children, continuity, template) and the dispatch '
             'on template 1500 (MeasurementReport vs ContentSequence as the type of .content); documents whose content is a '
             'real TID 1500 MeasurementReport (template classes) are compared with the model on the tree highdicom built '
-            '(kind report_doc); the template getters of parsed reports are exercised by kind tid1500 (oracle only).')
-STRATA = ['find', 'collect', 'collect_err', 'doc', 'doc_err', 'doc_verify', 'roundtrip', 'from_dataset', 'ko', 'ko_err',
+            '(kind report_doc); the template getters of parsed reports are exercised by kind tid1500 (oracle only).  '
+            'Coded entries: what an entry carries beyond value / scheme / meaning is an optional attribute of the item '
+            '(14 concept name, 15 CODE value, 16 NUM unit, 17 NUM qualifier), carried like every other attribute; the '
+            'root rebuild of from_dataset keeps key 14 (the whole ConceptNameCodeSequence is copied); '
+            'ko_content takes what the title entry carries.')
+STRATA = ['find', 'collect', 'collect_err', 'doc', 'doc_err', 'doc_verify', 'doc_entries', 'roundtrip', 'from_dataset', 'ko', 'ko_err',
           'ko_srread', 'ko_parse', 'segref', 'segframe', 'seg_real', 'tid1500', 'report_doc']
 NOT_EXECUTED = []
 RULE = ('trees: depth <= 4, fan-out <= 3, 15 value types, children below any value type, references drawn from a '
         'pool of <= 8 instances with repeats; optional attributes of items (document kinds): root and nested container '
         'template (none / 1500 / other) and continuity, NUM qualifier and integer value, IMAGE frame and segment numbers, '
         'SCOORD pixel origin interpretation / fiducial / multi-point graphic, SCOORD3D fiducial / multi-point, TCOORD '
-        'positions / offsets / date-times, WAVEFORM channels; parsing through srread(bytes), Class.from_dataset(document) '
+        'positions / offsets / date-times, WAVEFORM channels; CODED ENTRIES with more than value / scheme / meaning - '
+        'concept name of any item incl. the root (15-25 %), CODE value (45 %), NUM unit (30 %), NUM qualifier (45 %), key '
+        'object title (40 %), measurement name / unit / qualifier, evaluation value and finding type of template-built '
+        'reports, performed procedure codes (5 fixed variants) - drawn from: long / URN value form, scheme version, '
+        'context group identification (identifier, mapping resource, version, UID; whole or partial), extension flag Y '
+        '(+ local version + creator UID) / N, mapping resource UID / name, 1-2 equivalent codes, combined; non-root '
+        'items with ObservationUID / ObservationDateTime set by hand (20 % each); doc_entries: {root name, item name, '
+        'CODE value, NUM unit, NUM qualifier} x {long form, URN form, scheme version, context group identification, '
+        'context group extension, mapping resource, equivalent code} x {in memory, written + srread, from_dataset}, EVERY '
+        'combination in every run (105 small documents, classes / from_dataset variants rotating, item at a random depth); '
+        'parsing through srread(bytes), Class.from_dataset(document) '
         'and Class.from_dataset(pydicom.dcmread(bytes)) with copy True/False; real TID 1500 reports built with the '
         'template classes (measurements with / without qualifier, method, derivation, finding sites, source images, '
         'qualitative evaluations, planar ROI groups; oracle only); evidence: pool over <= 3 studies x <= 3 series, supplied = '
@@ -233,9 +256,9 @@ def gen_opts(rng, vt, ref, root=False):
     o = gen_opts0(rng, vt, ref, root)
     o = o + gen_entry_opts(rng, vt, o, root)
     if not root:
-        if rng.random() < 0.1:
+        if rng.random() < 0.2:
             o.append([K_OBS_UID, [rng.randint(1, 5)]])
-        if rng.random() < 0.1:
+        if rng.random() < 0.2:
             o.append([K_OBS_DT, [rng.randint(0, 59)]])
     return o
 
@@ -481,6 +504,50 @@ def gen_doc_verify(rng):
                                      dept=rng.randint(1, 9) if dept else None,
                                      parse=rng.random() < 0.35)
                             out.append(c)
+    return out
+
+
+ENTRY_POSITIONS = ['root_name', 'name', 'code', 'unit', 'qualifier']
+ENTRY_GROUPS = ['long', 'urn', 'version', 'context', 'extension', 'mapping', 'equivalent']
+
+
+def gen_doc_entries(rng):
+    """the coded-entry dimension crossed exhaustively: one small valid document per (position of the coded entry)
+    x (group of attributes it carries beyond value / scheme / meaning) x (in memory / written + srread /
+    from_dataset), classes and the from_dataset variants rotating, the item placed at a random depth"""
+    out = []
+    n = 0
+    for pos in ENTRY_POSITIONS:
+        for grp in ENTRY_GROUPS:
+            for how in ('doc', 'roundtrip', 'from_dataset'):
+                n += 1
+                cid = rng.choice(CIDS)
+                feats = {'long': [2], 'urn': [3], 'version': [10 + rng.randint(1, 9)],
+                         'context': [4, 5, 10000 + cid] + ([20000 + cid] if rng.random() < 0.5 else []),
+                         'extension': rng.choice([[6, 8, 9, 10000 + cid], [7, 10000 + cid]]),
+                         'mapping': rng.choice([[30], [31], [30, 31]]),
+                         'equivalent': [41, 50000 + rng.randint(1, 99)]}[grp]
+                c = gen_doc(rng, 'doc_entries', force_ok=True, max_depth=2)
+                c.update(cls=n % 3, ts='explicit', how=how, position=pos, group=grp)
+                if c['cls'] != 2 or how == 'from_dataset':
+                    strip_3d(c['tree'])
+                tag, rel = rng.randint(1, 6), rng.randint(1, 4)
+                if pos == 'root_name':
+                    o = [kv for kv in opts_of(c['tree']) if kv[0] != K_NAME] + [[K_NAME, feats]]
+                    del c['tree'][5:]
+                    c['tree'].append(sorted(o))
+                else:
+                    item = {'name': [rng.choice([1, 2, 3, 8, 9, 10, 11, 12]), tag, rel, None, [], [[K_NAME, feats]]],
+                            'code': [2, tag, rel, None, [], [[K_CODE, feats]]],
+                            'unit': [3, tag, rel, None, [], [[K_UNIT, feats]]],
+                            'qualifier': [3, tag, rel, None, [], [[3, [114006]], [K_QUAL, feats]]]}[pos]
+                    # below the root, below a nested container, or below any other item (children below any value type)
+                    hosts = [c['tree']] + [k for k, _ in walk(c['tree'])]
+                    host = c['tree'] if rng.random() < 0.4 else rng.choice(hosts)
+                    host[4].insert(rng.randint(0, len(host[4])), item)
+                if how == 'from_dataset':
+                    c.update(target=rng.choice([0, c['cls']]), via=rng.choice(['document', 'dcmread']), copy=rng.random() < 0.5)
+                out.append(c)
     return out
 
 
@@ -839,6 +906,8 @@ def gen_cases(rng, tier):
         cases.append(gen_doc_err(rng))
     for _ in range(n):
         cases.extend(gen_doc_verify(rng))
+    for _ in range(n):
+        cases.extend(gen_doc_entries(rng))
     for _ in range(70 * n):
         cases.append(gen_doc(rng, 'roundtrip', force_ok=rng.random() < 0.85))
     for _ in range(36 * n):
@@ -1697,6 +1766,8 @@ def doc_kind(c):
     k = c['kind']
     if k == 'doc_verify':
         return 'roundtrip' if c.get('parse') else 'doc'
+    if k == 'doc_entries':
+        return c['how']              # 'doc' (in memory), 'roundtrip' (written + srread) or 'from_dataset'
     return k
 
 
